@@ -256,7 +256,9 @@ func corpusItems(tier string, seed int64) (items []corpusItem, exhaustive bool, 
 	return
 }
 
-func isUndecided(msg string) bool { return strings.HasPrefix(msg, "undecided") || strings.Contains(msg, ": undecided") }
+func isUndecided(msg string) bool {
+	return strings.HasPrefix(msg, "undecided") || strings.Contains(msg, ": undecided")
+}
 
 // emitTV turns shape results into obligations for the given rules.
 func emitTV(r *Report, results []shapeResult, rules map[string]bool, fieldsFilter func(msg string) bool) (programs, cases, typeErrShapes, genFail int) {
